@@ -68,6 +68,18 @@ func c08Scens(tier string) []msScen {
 			out = append(out, msScen{Prop: "C08", Cfg: cfg, Warm: 8, Writes: 5, Params: 1, Reqs: [][]string{rs}, Bound: bound, Shards: 1})
 		}
 	}
+	// readers that arrive before the stream has content: they wait, and wake-ups that bring no content yet (a part
+	// rotation inside the first segment, the first of the two segments the fMP4 variant needs) must not answer them
+	for _, eb := range []base{{cfgLLp, []int{0, 1}}, {cfgLLDiskp, []int{1}}, {cfgFMP4, []int{0, 3, 5}}, {cfgTSDisk, []int{0, 2}}} {
+		for _, warm := range eb.warms {
+			for _, rs := range [][]string{{"PL", "PL"}, {"IDX", "PL"}, {"PL", "FOLLOWSEG"}} {
+				out = append(out, msScen{Prop: "C08", Cfg: eb.cfg, Warm: warm, Writes: 5, Reqs: [][]string{rs}, Bound: bound, Shards: 1})
+			}
+			if tier == "thorough" {
+				out = append(out, msScen{Prop: "C08", Cfg: eb.cfg, Warm: warm, Writes: 5, Reqs: [][]string{{"PL", "PL"}, {"IDX", "PL"}}, Bound: bound, Shards: 1})
+			}
+		}
+	}
 	for _, b := range bases {
 		ll := b.cfg.Variant == "ll"
 		for _, warm := range b.warms {
@@ -224,7 +236,9 @@ func c08Check(st *msState, s *vsched.Sched, tr *vsched.Trace) (string, []vsched.
 		perThread[l.Thread] = append(perThread[l.Thread], l)
 		if !l.Finished {
 			fmt.Fprintf(&ob, "%s:wait ", l.Sym)
-			if !(l.Sym == "BR" || l.Sym == "PH" || strings.HasPrefix(l.Sym, "FOLLOWHINT")) && !st.closed {
+			// (a playlist request legitimately waits as long as the stream has no content)
+			waitsForContent := (l.Sym == "PL" || l.Sym == "PLQ" || l.Sym == "PLA" || l.Sym == "IDX" || l.Sym == "DELTA") && !st.leadingStream().hasContent()
+			if !(l.Sym == "BR" || l.Sym == "PH" || strings.HasPrefix(l.Sym, "FOLLOWHINT")) && !st.closed && !waitsForContent {
 				if _, stuck := findThread(s, l.Thread); stuck {
 					add("reader-stuck/"+l.Sym, fmt.Sprintf("request %s (%s) never completes", l.Sym, canon(l.URL)))
 				}
